@@ -38,6 +38,9 @@ CHECKS = {
  "C17": ("Exhaustive enumeration of every distribution of four top-level keys over the data file and 1..3 input-parameter files (data part possibly empty) in every order of the -i arguments, plus every overlapping variant (one key duplicated between any two sources, equal and different value), x five invocation modes (plain, structured, data on stdin, payload plain/structured); disjoint distributions must give exactly the verdicts and exit code of the pre-merged document (rules read data keys, parameter keys, both, keys-filters over the root and count(this.*)), overlapping ones an error exit with a message and no panic.",
          "Trusted base: the report extractors; the pre-merged document evaluated by the same tool is the reference (differential).",
          "exhaustive enumeration of key distributions x -i orders x overlap variants x modes, differential oracle against the pre-merged document"),
+ "C16": ("Exhaustive exploration of (rules file, suite of 1..4 inputs, expectation assignment, format, layout) states: rules files from the BFS universe plus files defining the same rule name two and three times; all 4^k assignments of PASS / FAIL / SKIP / no expectation to the first k <= 3 rule names; plain, verbose, JSON, YAML and JUnit renderings; -r/-t and --dir layouts. The per-case passed / failed / unexpected sets, the evaluated status lists and the exit code reported by test are compared with the closed-form rule of the property applied to the per-definition statuses the library entry point (validate) gives on the same input, and all renderings are compared with that same expectation.",
+         "Trusted base: the 15-line closed-form 'expectation met' rule, the plain / JSON / YAML / JUnit extractors of the test reporters, run_checks as the validate baseline.",
+         "exhaustive enumeration of expectation assignments x inputs x formats x layouts against a closed-form rule over validate's statuses"),
 }
 PENDING_REASON = "check under construction in this round (design in DESIGN.md section 5); not claimed until its quick tier runs clean on the unchanged tree"
 ALL = ["C%02d" % i for i in range(1, 20)]
